@@ -74,6 +74,8 @@ type frameObj struct {
 type frameInfo struct {
 	all    bool
 	ghosts bool // `modifies ghosts`: every ghost variable may change
+	except []string // `modifies * except T`: heap key prefixes that must stay unchanged
+	exceptKeys []string
 	keys map[string]bool
 	objs []frameObj
 }
